@@ -286,7 +286,7 @@ def mutation_list(ctx: Any, tok: bytes, full: bool) -> list[dict[str, Any]]:
     n, m = len(raw), len(tok)
     muts: list[dict[str, Any]] = []
     edge = n if full else ctx.budget(16, 64)
-    pos = sorted(set(list(range(min(edge, n))) + [-(i + 1) for i in range(min(edge, n))]))
+    pos = list(range(n)) if edge >= n else sorted(set(list(range(edge)) + [-(i + 1) for i in range(edge)]))
     if not full:
         pos += [rng.randrange(edge, max(edge + 1, n - edge)) for _ in range(ctx.budget(6, 40))] if n > 2 * edge else []
     for p in pos:
